@@ -40,6 +40,8 @@ type c14World struct {
 	sawRepeatOrUnnamedBeforeQuorum bool
 	sawSpelled                     bool
 	replaced, oddSize              int
+	quorumWithoutEffect            int
+	formsOutOfNowhere              int
 	idle                           []chain.Account // registered, never proved anything
 	big                            *sFile          // the file every active provider proves (one replica slot left free)
 	fired                          int
@@ -129,7 +131,12 @@ func (w *c14World) request(kind string, signer chain.Account, prover string, f *
 // upper case: either nothing happens or everything happens as for the canonical spelling.
 func (w *c14World) requestSpelled(kind string, signer chain.Account, prover string, f *sFile, upProver bool) (string, string) {
 	key := c14Key(kind, prover, f)
-	_, had := w.forms[key]
+	// whether a form is open is read from the chain: a form whose quorum completed on a prover that had already been
+	// dropped may or may not be kept by the code (the property says nothing about it), the model follows the chain
+	_, _, had := w.storedForm(kind, prover, f)
+	if !had {
+		delete(w.forms, key)
+	}
 	before := w.snap()
 	var res chain.Result
 	var success bool
@@ -289,82 +296,63 @@ func (w *c14World) signSpelled(kind string, signer chain.Account, prover string,
 			}
 		}
 	}
-	w.logf("%s by %s about %s on %s (form open=%v, named=%v, already signed=%v) -> %s", kind, short(signer.Bech), short(prover), f.id(), form != nil, named, form != nil && form.Signed[signer.Bech], res)
-	if form == nil || form.Stuck {
-		// non-existent / consumed / stuck form: no effect whatsoever
-		if s, m := w.noEffect(before, kind+" on a non-existent or consumed form"); s != "" {
-			return s, m
-		}
-		if _, _, found := w.storedForm(kind, prover, f); found && form == nil {
-			return "C14/form-resurrected", "a signature created a form"
-		}
-		return "", ""
+	w.logf("%s by %s about %s on %s (form open=%v, named=%v, already signed=%v) -> %s", kind, short(signer.Bech), short(prover), f.id(), form != nil && !form.Stuck, named, form != nil && form.Signed[signer.Bech], res)
+	open := form != nil && !form.Stuck // Stuck doubles as "consumed": the form has acted (or can no longer act)
+	if open && (!named || form.Signed[signer.Bech]) && int64(len(form.Signed)) < w.m {
+		w.sawRepeatOrUnnamedBeforeQuorum = true
 	}
-	if !named || form.Signed[signer.Bech] {
-		if int64(len(form.Signed)) < w.m {
-			w.sawRepeatOrUnnamedBeforeQuorum = true
-		}
-	}
-	fire := false
-	if named {
+	// The property is about effects: a deadline is refreshed (attestation) or a prover removed (report) only once at
+	// least m distinct providers named on the open form have signed, and only through a signature of a named provider.
+	legit := false
+	if open && named {
 		form.Signed[signer.Bech] = true
-		fire = int64(len(form.Signed)) >= w.m
+		legit = int64(len(form.Signed)) >= w.m
 	}
 	pk := pairKey(prover, f)
 	after := w.snap()
-	if !fire {
-		if s, m := w.noEffect(before, fmt.Sprintf("%s by %s (named=%v, distinct named signatures so far %d of %d needed)", kind, short(signer.Bech), named, len(form.Signed), w.m)); s != "" {
-			return s, m
-		}
-		_, complete, found := w.storedForm(kind, prover, f)
-		if !found {
-			return "C14/form-consumed-without-quorum", fmt.Sprintf("form vanished after %d of %d needed signatures", len(form.Signed), w.m)
-		}
-		for p := range complete {
-			if !form.Signed[p] {
-				return "C14/complete-flag-without-signature", fmt.Sprintf("form shows %s as complete, it never signed", short(p))
-			}
-		}
-		for p := range form.Signed {
-			if !complete[p] {
-				return "C14/signature-lost", fmt.Sprintf("signature of named provider %s is not recorded on the form", short(p))
-			}
-		}
-		return "", ""
-	}
-	// quorum reached at this step
-	stillListed := before.listed[pk]
-	if !stillListed {
-		// the prover is gone (removed by an earlier report): the code errors out; assert no effect and stop tracking flags
-		form.Stuck = true
-		delete(form.Signed, signer.Bech)
-		return w.noEffect(before, kind+" quorum on a prover that is no longer listed")
-	}
-	w.fired++
-	if kind == "attest" {
-		if after.last[pk] != w.f.Height() {
-			return "C14/quorum-did-not-refresh", fmt.Sprintf("attestation quorum (%d of %d) completed at height %d but LastProven of %s is %d", len(form.Signed), w.m, w.f.Height(), short(prover), after.last[pk])
-		}
-	} else {
-		if after.listed[pk] {
-			return "C14/quorum-did-not-remove", fmt.Sprintf("report quorum (%d of %d) completed but %s is still listed", len(form.Signed), w.m, short(prover))
-		}
-	}
-	// nobody else is affected
 	for k, v := range before.last {
 		if k != pk && after.last[k] != v {
-			return "C14/unexpected-refresh", "quorum changed another pair's deadline"
+			return "C14/unexpected-refresh", fmt.Sprintf("%s by %s about %s changed the deadline of another pair (%s)", kind, short(signer.Bech), short(prover), short(strings.SplitN(k, "|", 2)[0]))
 		}
 	}
 	for k, v := range before.listed {
 		if k != pk && after.listed[k] != v {
-			return "C14/unexpected-removal", "quorum changed another pair's membership"
+			return "C14/unexpected-removal", fmt.Sprintf("%s by %s about %s changed the list membership of another pair (%s)", kind, short(signer.Bech), short(prover), short(strings.SplitN(k, "|", 2)[0]))
 		}
 	}
-	if _, _, found := w.storedForm(kind, prover, f); found {
-		return "C14/form-not-consumed", "form still stored after the quorum acted"
+	refreshed := after.last[pk] != before.last[pk]
+	removed := before.listed[pk] != after.listed[pk]
+	if refreshed || removed {
+		what := fmt.Sprintf("%s by %s (named=%v, form open=%v, distinct named signatures %d, minimum %d)", kind, short(signer.Bech), named, open, func() int {
+			if form == nil {
+				return 0
+			}
+			return len(form.Signed)
+		}(), w.m)
+		if !legit {
+			if refreshed && !removed {
+				return "C14/unexpected-refresh", fmt.Sprintf("%s changed LastProven of %s from %d to %d", what, short(prover), before.last[pk], after.last[pk])
+			}
+			return "C14/unexpected-removal", fmt.Sprintf("%s changed list membership of %s (%v -> %v)", what, short(prover), before.listed[pk], after.listed[pk])
+		}
+		// a legitimate quorum acts in its own way only: an attestation refreshes the deadline to now, a report removes
+		if kind == "attest" && (removed || after.last[pk] != w.f.Height()) {
+			return "C14/wrong-effect", fmt.Sprintf("%s: an attestation quorum left %s with listed=%v LastProven=%d at height %d", what, short(prover), after.listed[pk], after.last[pk], w.f.Height())
+		}
+		if kind == "report" && after.listed[pk] {
+			return "C14/wrong-effect", fmt.Sprintf("%s: a report quorum changed the deadline of %s instead of removing it", what, short(prover))
+		}
+		w.fired++
+		form.Stuck = true // consumed: whatever the code keeps in its store, further signatures on it must not act again
+	} else if legit {
+		w.quorumWithoutEffect++ // e.g. the prover had been dropped already, or the code is stricter than the property
 	}
-	delete(w.forms, key)
+	// representation is the code's business: follow it where the property is silent
+	if _, _, kept := w.storedForm(kind, prover, f); !kept {
+		delete(w.forms, key)
+	} else if form == nil {
+		w.formsOutOfNowhere++
+	}
 	return "", ""
 }
 
@@ -430,7 +418,7 @@ func newC14World(c *chain.Chain, n, m int64, nProv, nSameDomain, nIdle, nUnreg i
 
 func TestC14(t *testing.T) {
 	rec := ev.For("C14")
-	rec.Describe("stateful fork-mode histories (rapid state machine): 0-10 (mostly 6-10) registered providers with distinct domains that each hold a proof (populations smaller than the form size included), 0-2 sharing the prover's domain, 0-2 registered but idle, 0-2 unregistered accounts; (AttestFormSize n, AttestMinToPass m) with 0 <= m <= n <= 6; provers request attestation forms, anybody requests report forms, then arbitrary attest/report messages by named, unnamed and repeated signers and the prover itself against open, never-existing and consumed forms, second requests after consumption, height advancing between messages. Model: signed is a subset of named; the action fires at the step a named provider signs and |signed| >= m, once, and consumes the form. After every message LastProven / list membership of every (account,file) and the stored form (existence, complete flags) must equal the model; a fresh form must name distinct registered providers that hold a proof, never the prover, and carry no signatures. Non-trivial = a repeated or unnamed signature arrived before quorum; distinct = distinct traces.",
+	rec.Describe("stateful fork-mode histories (rapid state machine): 0-10 (mostly 6-10) registered providers with distinct domains that each hold a proof (populations smaller than the form size included), 0-2 sharing the prover's domain, 0-2 registered but idle, 0-2 unregistered accounts; (AttestFormSize n, AttestMinToPass m) with 0 <= m <= n <= 6; provers request attestation forms, anybody requests report forms, then arbitrary attest/report messages by named, unnamed and repeated signers and the prover itself against open, never-existing and consumed forms, second requests after consumption, height advancing between messages. Model: who really signed each open form (named providers only). Oracle on effects: after every message the LastProven / list membership of every (account,file) is compared with the state before; a change is allowed only for the pair the form is about, only through a signature of a provider named on an open, not yet consumed form, only when the distinct named signers so far (this one included) number at least m, and only in the form\u2019s own way (attestation: deadline = current height; report: removal); after such an effect the form counts as consumed whatever the code keeps in its store. A fresh form must name distinct registered providers that hold a proof, never the prover, and carry no signatures. Whether forms are kept, dropped or replaced, and whether a completed quorum acts at all, is left to the code (counted, not asserted). Non-trivial = a repeated or unnamed signature arrived before quorum; distinct = distinct traces.",
 		"if the prover has already been removed when a quorum completes, the code errors out and keeps the form; only 'no effect' is asserted there",
 		"CheckWindow is set out of reach so that reward blocks do not interfere")
 	c := chain.New(chain.GenesisOpts{NumAccounts: 1, Balance: sdk.NewCoins(sdk.NewInt64Coin("ujkl", 1_000_000_000_000)),
@@ -523,6 +511,15 @@ func TestC14(t *testing.T) {
 				w.logf("provider %s shuts down -> %s", short(p.Bech), r)
 				fail(w.noEffect(before, "a provider shutdown"))
 			},
+			// a prover that was removed (or never joined that file) takes a free slot again with a valid proof
+			"rejoin": func(rt *rapid.T) {
+				p, f := drawTarget(rt)
+				if w.isListed(p.Bech, f) {
+					rt.Skip()
+				}
+				ok := w.prove(p, f)
+				w.logf("%s proves %s to take a slot again -> %v", short(p.Bech), f.id(), ok)
+			},
 			"addClaimer": func(rt *rapid.T) {
 				p := w.everyone[rapid.IntRange(0, len(w.everyone)-1).Draw(rt, "provider")]
 				cl := w.everyone[rapid.IntRange(0, len(w.everyone)-1).Draw(rt, "claimer")]
@@ -559,6 +556,9 @@ func TestC14(t *testing.T) {
 		rec.Count(fmt.Sprintf("n=%d,m=%d", n, m))
 		if w.fired > 0 {
 			rec.Count("histories-with-a-quorum")
+		}
+		if w.quorumWithoutEffect > 0 {
+			rec.Count("histories-where-a-completed-quorum-had-no-effect")
 		}
 		if w.replaced > 0 {
 			rec.Count("histories-where-a-request-replaced-an-open-form")
